@@ -30,13 +30,22 @@ def FaultOK (ck : Bool) (fns : List FDecl) (w : Nat) : Res → Prop
   | .ovf => ck = true ∧ ∀ fd ∈ fns, pkS w (entryOff w fd.params) fd.body < 256 ^ w
   | _ => True
 
+/-- in the situation `md` every defeat handler halts, whatever the memory (vacuous unless `md` is `stop`:
+it describes the world in which a `try/stop` asks whether its body would be defeated) -/
+def HaltW (p : Prog) (md : Md) : Prop := ∀ a v, md = .stop a v → ∀ m', Halts (sphinx p) ⟨v, m'⟩
+
+theorem HaltW.plain : HaltW p .plain := fun _ _ e => by cases e
+
 /-- what a caller must say about the situation of a statement list.  Either the list has no `try`
-(then in the body of a `try/stop`, and only there, defeat calls jump through the word at `dA`), or it
-is at the level of the you function: then the states in which the whole list can end never halt,
-because a Turing jump looks at the whole future, and programs with a `try/stop` have the words
-`try_fp` and `defeat` behind the entry frame. -/
+(then in the body of a `try/stop`, and only there, defeat calls jump through the word at `dA`; a
+Turing jump to the handler that is *not* taken needs to know the future: either the handler is a
+`halt`, or no state in which the whole list can end halts), or it is at the level of the you
+function: then the states in which the whole list can end never halt, because a Turing jump looks at
+the whole future, and programs with a `try/stop` have the words `try_fp` and `defeat` behind the
+entry frame. -/
 def Safe (p : Prog) (B dA ra : Nat) (lp : Jt) (md : Md) (st : Bool) (Γ : Gam) (env' : Env) (F D o pcEnd : Nat) (m : Mem) (res : Res) (s : S) : Prop :=
-  (md ≠ .you ∧ (lp.vd = true → ∃ v, md = .stop dA v) ∧ noTry s = true) ∨
+  (md ≠ .you ∧ (lp.vd = true → ∃ v, md = .stop dA v) ∧ noTry s = true ∧
+      (HaltW p md ∨ (lp.vd = true ∧ ∀ st', Post p B ra lp md Γ env' F D o pcEnd m res st' → ¬ Halts (sphinx p) st'))) ∨
     (md = .you ∧ lp.vd = false ∧ youLevel st s = true ∧
       (st = true → dA = F + p.w ∧ F + 2 * p.w ≤ m.size ∧ F + 2 * p.w < 256 ^ p.w) ∧
       ∀ st', Post p B ra lp md Γ env' F D o pcEnd m res st' → ¬ Halts (sphinx p) st')
@@ -47,8 +56,8 @@ theorem Safe.sub' {lp : Jt} {md : Md} {st : Bool} {Γ Γ' : Gam} {env' : Env} {F
     (km : Keep p.w m m1 (md.kb F p.w))
     (conv : ∀ st', Post p B ra lp md Γ' env' F D o' e' m res st' → Post p B ra lp md Γ env' F D o e m res st') :
     Safe p B dA ra lp md st Γ' env' F D o' e' m1 res k := by
-  rcases h with ⟨hm, hv, h⟩ | ⟨hm, hv, h1, hst, h2⟩
-  · exact Or.inl ⟨hm, hv, hnt h⟩
+  rcases h with ⟨hm, hv, h, hw⟩ | ⟨hm, hv, h1, hst, h2⟩
+  · exact Or.inl ⟨hm, hv, hnt h, hw.imp id (fun hf => ⟨hf.1, fun st' hp => hf.2 st' (conv st' (hp.rebase km))⟩)⟩
   · exact Or.inr ⟨hm, hv, hyl h1, fun e => by rw [km.size]; exact hst e, fun st' hp => h2 st' (conv st' (hp.rebase km))⟩
 
 theorem Safe.sub {lp : Jt} {md : Md} {st : Bool} {Γ Γ' : Gam} {env' : Env} {F D ra o o' e e' : Nat} {m m1 : Mem} {res : Res} {s k : S}
